@@ -34,7 +34,7 @@ def plan(pid, tier, seed):
         ]
     return {
         "harness": "moveclass",
-        "needs_coca": False,
+        "needs_coca": True,
         "mc": mc,
         "gen": [],
         "rand": 1500 if quick else 25000,
@@ -55,7 +55,7 @@ def case_from_tlc(obj, h, g):
         for f in _seq(p.get("files")):
             files.append({"pkg": f["pkg"], "name": f["name"], "eol": f["eol"], "final": f["final"], "lines": _seq(f.get("lines"))})
         projects.append({"files": files, "dirs": _seq(p.get("dirs")), "moves": _seq(p.get("moves")), "analyses": p["analyses"]})
-    return {"case": "tlc-" + h, "input": {"projects": projects}}
+    return {"case": "tlc-" + h, "input": {"via": "api", "projects": projects}}
 
 
 def nontrivial(rec):
@@ -76,5 +76,6 @@ def extra_evidence(records):
             "histories_with_several_moves": n(lambda r: any(len(p["moves"]) > 1 for p in r["input"]["projects"])),
             "histories_with_crlf_file": n(lambda r: any(f["eol"] == "\r\n" for p in r["input"]["projects"] for f in p["files"])),
             "histories_with_file_without_final_newline": n(lambda r: any(not f["final"] for p in r["input"]["projects"] for f in p["files"])),
+            "histories_via_cli": n(lambda r: r["input"].get("via") == "cli"),
             "files_rendered": files,
             "processes_died": n(lambda r: r["observed"]["panic"])}
